@@ -162,7 +162,7 @@ REG.update({
                  "(utxo-scope) every stored UTXO is owned by an in-zone Qi-ledger address."),
         "expect_probes": ["reorg"],
         "components": S5_COMPONENTS,
-        "assumptions": ["agreement of constructors/decoders is decided on a boundary table, not on all 2^160 addresses; Address.UnmarshalJSON / DecodeRLP classify against a fixed location by design of the type and are not in the table",
+        "assumptions": ["agreement of constructors/decoders is decided on a boundary table, not on all 2^160 addresses; the location-less decoders (UnmarshalJSON / UnmarshalText / DecodeRLP) are in the table and are an open known finding",
                         "membership is probed for candidate addresses (the state trie is keyed by hashes; preimages are not recorded)"],
     },
     "C01": {
